@@ -170,6 +170,11 @@ func checkC05(c *Check) {
 	checkMountBuilder(c)
 
 	c.Extra["assignments_enumerated"] = x.nEnum
+
+	// "read-only means read-only" needs the program to be unable to remount: the capability drop of C04.O1 (for every
+	// configuration: exactly one securebits+capset(0) iff requested, with the NOROOT bits, failure aborting)
+	importObs(c, "C04", "C04.O1/cap-drop", "5/cannot-remount", nil)
+	c.Expect("5/cannot-remount", 12)
 }
 
 // nonLoopAtoms: atoms of a guard that are not range-loop membership tests.
